@@ -9,6 +9,7 @@
 -/
 import Acra.Lemmas.Ch11
 import Acra.Lemmas.ReviewC03
+import Acra.Lemmas.Ch11Cksum
 namespace Acra.Props.C03
 open Acra.Py Acra.Model.Ch11 Acra.Gen.Ch11 Acra.Lemmas.Ch11 Acra.Lemmas.Ch10 Acra
 
@@ -190,5 +191,132 @@ example : WFn { fresh with channelID := 0x1234, sequence := 3, packetflag := 0x3
     ({ fresh with channelID := 0x1234, sequence := 3, packetflag := 0x35, datatype := 0x50,
                   relativetimecounter := 0xFFFFFFFFFFFF, payload := [1, 2, 3, 4, 5, 6, 7, 8] } : State).payload.length % 4 = 0 := by
   simp [WFn, fresh, DEFAULT_SYNCPATTERN, DEFAULT_DATATYPEVERSION, TS_RTC]
+
+/-! ### packets with `data_checksum_size = k ≠ 0` (outside `WFn` / `WFs`)
+
+  What `pack` does with the attribute (Chapter11/__init__.py): `k` enters `total_len_excl_filler`, hence the filler length
+  and the packet-length field — and nothing else.  No checksum bytes are emitted, the checksum bits of the packet flags are
+  not set, `unpack` never reads the attribute.  `WFnK` / `WFsK` (Lemmas/Ch11Cksum) are `WFn` / `WFs` without the clause
+  `data_checksum_size = 0` (`WFn s ↔ WFnK s ∧ k = 0`).  The theorems below give, for EVERY `k`, the exact bytes, the length
+  laws as they really are, and the object round trip; `Props/C12` shows what the file reader does with such a packet. -/
+
+/-- layout for every checksum size: header (declaring `24 + |sec| + |payload| + k + filler` bytes), secondary header,
+    payload, filler computed from the length INCLUDING `k` — and no checksum bytes -/
+theorem ch11_pack_layout_datacksum (s : State) (h : WFnK s) : pack s = (packedK s 0, .ok (bytesK s [])) := pack_nosecK s h
+
+theorem ch11_pack_layout_datacksum_sec (s : State) (h : WFsK s) :
+    pack s = (packedK s 12, .ok (bytesK s (Spec.Ch11.secHeader s.ptptime.seconds s.ptptime.nanoseconds))) := pack_secK s h
+
+/-- for `k = 0` this is the standard layout of `ch11_pack_layout` -/
+theorem ch11_bytesK_zero (s : State) (hk : s.data_checksum_size = 0) :
+    bytesK s [] = Spec.Ch11.encode s.syncpattern s.channelID s.datatypeversion s.sequence s.packetflag s.datatype
+      s.relativetimecounter none s.payload ∧
+    bytesK s (Spec.Ch11.secHeader s.ptptime.seconds s.ptptime.nanoseconds) =
+      Spec.Ch11.encode s.syncpattern s.channelID s.datatypeversion s.sequence s.packetflag s.datatype
+        s.relativetimecounter (some (s.ptptime.seconds, s.ptptime.nanoseconds)) s.payload := by
+  simp [bytesK, totalK, hk, Spec.Ch11.encode]
+
+/-- the length laws as they really are: the packet-length FIELD (bytes 4..8 of what was emitted, and the attribute) is
+    the real length PLUS `k`; that sum is a multiple of four, so the real length is one exactly when `k` is; the
+    data-length field is the payload length; the filler has fewer than four bytes -/
+theorem ch11_pack_shape_datacksum (s : State) (h : WFnK s ∨ WFsK s) :
+    ∃ b, (pack s).2 = .ok b ∧
+      leNat (slice b 4 8) = b.length + s.data_checksum_size ∧
+      (pack s).1.packetlen = b.length + s.data_checksum_size ∧
+      (b.length + s.data_checksum_size) % 4 = 0 ∧
+      (b.length % 4 = 0 ↔ s.data_checksum_size % 4 = 0) ∧
+      leNat (slice b 8 12) = s.payload.length ∧ (pack s).1.datalen = s.payload.length ∧
+      (pack s).1.filler.length < 4 := by
+  have key : ∀ sec : Bytes, totalK s sec.length + Spec.Ch11.fillLen (totalK s sec.length) < 2 ^ 32 →
+      s.payload.length < 2 ^ 32 →
+      pack s = (packedK s sec.length, .ok (bytesK s sec)) →
+      ∃ b, (pack s).2 = .ok b ∧
+        leNat (slice b 4 8) = b.length + s.data_checksum_size ∧
+        (pack s).1.packetlen = b.length + s.data_checksum_size ∧
+        (b.length + s.data_checksum_size) % 4 = 0 ∧
+        (b.length % 4 = 0 ↔ s.data_checksum_size % 4 = 0) ∧
+        leNat (slice b 8 12) = s.payload.length ∧ (pack s).1.datalen = s.payload.length ∧
+        (pack s).1.filler.length < 4 := by
+    intro sec hlt hpl hp
+    have hlen := bytesK_length s sec
+    have hmod := fillLen_mod (totalK s sec.length)
+    have hfl := fillLen_lt (totalK s sec.length)
+    obtain ⟨h1, h2⟩ := Lemmas.ReviewC03.header_len_fields s.syncpattern s.channelID
+      (totalK s sec.length + Spec.Ch11.fillLen (totalK s sec.length)) s.payload.length s.datatypeversion s.sequence
+      s.packetflag s.datatype s.relativetimecounter
+      (sec ++ (s.payload ++ List.replicate (Spec.Ch11.fillLen (totalK s sec.length)) 0xFF))
+    have hb : bytesK s sec = Spec.Ch11.header s.syncpattern s.channelID
+        (totalK s sec.length + Spec.Ch11.fillLen (totalK s sec.length)) s.payload.length s.datatypeversion s.sequence
+        s.packetflag s.datatype s.relativetimecounter ++
+        (sec ++ (s.payload ++ List.replicate (Spec.Ch11.fillLen (totalK s sec.length)) 0xFF)) := by
+      simp [bytesK, List.append_assoc]
+    refine ⟨bytesK s sec, by rw [hp], ?_, by rw [hp]; simp only [packedK]; omega, by omega, by omega, ?_, by rw [hp]; rfl,
+      by rw [hp]; simp [packedK]; omega⟩
+    · rw [hb, h1, leNat_leBytes_of_lt _ _ (by omega), ← hb]; omega
+    · rw [hb, h2, leNat_leBytes_of_lt _ _ (by omega)]
+  rcases h with h | h
+  · have hfl := fillLen_lt (totalK s ([] : Bytes).length)
+    have := h.2.2.2.2.2.2.2.2.2
+    exact key [] (by simp only [totalK, List.length_nil] at hfl ⊢; omega) (by omega) (pack_nosecK s h)
+  · have hl : (Spec.Ch11.secHeader s.ptptime.seconds s.ptptime.nanoseconds).length = 12 := by
+      simp [Spec.Ch11.secHeader]
+    have hfl := fillLen_lt (totalK s 12)
+    have := h.2.2.2.2.2.2.2.2.2.2.2
+    have hp := pack_secK s h
+    rw [← hl] at hp
+    exact key _ (by rw [hl]; simp only [totalK] at hfl ⊢; omega) (by omega) hp
+
+/-- object round trip for every checksum size: decoding the emitted bytes into an object in ANY prior state gives back
+    every header field, the data length, the payload followed by the filler (K5) — and a packet length that is `k` MORE
+    than the bytes decoded; `data_checksum_size` itself is not carried by the bytes (the decoder keeps its own) -/
+theorem ch11_roundtrip_datacksum (s t : State) (h : WFnK s) :
+    ∃ b, (pack s).2 = .ok b ∧ unpack t b = (decodedK s t 0, .ok ()) ∧
+      (decodedK s t 0).payload = s.payload ++ List.replicate (Spec.Ch11.fillLen (totalK s 0)) 0xFF ∧
+      (decodedK s t 0).channelID = s.channelID ∧ (decodedK s t 0).sequence = s.sequence ∧
+      (decodedK s t 0).packetflag = s.packetflag ∧ (decodedK s t 0).datatype = s.datatype ∧
+      (decodedK s t 0).datatypeversion = s.datatypeversion ∧ (decodedK s t 0).syncpattern = s.syncpattern ∧
+      (decodedK s t 0).relativetimecounter = s.relativetimecounter ∧ (decodedK s t 0).datalen = s.payload.length ∧
+      (decodedK s t 0).packetlen = b.length + s.data_checksum_size ∧
+      (decodedK s t 0).data_checksum_size = t.data_checksum_size := by
+  refine ⟨bytesK s [], by rw [pack_nosecK s h], roundtrip_nosecK s t h, rfl, rfl, rfl, rfl, rfl, rfl, rfl, rfl, rfl, ?_, rfl⟩
+  have := bytesK_length s []
+  simp only [decodedK, packedK]
+  simp only [List.length_nil] at this
+  omega
+
+theorem ch11_roundtrip_datacksum_sec (s t : State) (h : WFsK s) :
+    ∃ b, (pack s).2 = .ok b ∧ unpack t b = (decodedK s t 12, .ok ()) ∧
+      (decodedK s t 12).payload = s.payload ++ List.replicate (Spec.Ch11.fillLen (totalK s 12)) 0xFF ∧
+      (decodedK s t 12).ptptime = s.ptptime ∧ (decodedK s t 12).has_secondary_header = true ∧
+      (decodedK s t 12).channelID = s.channelID ∧ (decodedK s t 12).sequence = s.sequence ∧
+      (decodedK s t 12).packetflag = s.packetflag ∧ (decodedK s t 12).datatype = s.datatype ∧
+      (decodedK s t 12).datalen = s.payload.length ∧
+      (decodedK s t 12).packetlen = b.length + s.data_checksum_size := by
+  have hl : (Spec.Ch11.secHeader s.ptptime.seconds s.ptptime.nanoseconds).length = 12 := by
+    simp [Spec.Ch11.secHeader]
+  refine ⟨_, by rw [pack_secK s h], roundtrip_secK s t h, rfl, rfl, ?_, rfl, rfl, rfl, rfl, rfl, ?_⟩
+  · have := h.2.2.2.2.2.2.2.1
+    simp [decodedK, packedK, this]
+  · have := bytesK_length s (Spec.Ch11.secHeader s.ptptime.seconds s.ptptime.nanoseconds)
+    rw [hl] at this
+    simp only [decodedK, packedK]
+    omega
+
+/-- witnesses: `k = 2` without and `k = 1` with secondary header; the hypotheses hold and the laws evaluate as stated
+    (26 bytes emitted, 28 declared; 26 % 4 ≠ 0) -/
+example : WFnK { fresh with channelID := 0x1234, sequence := 3, packetflag := 0x35, datatype := 0x50,
+                            relativetimecounter := 0xFFFFFFFFFFFF, data_checksum_size := 2, payload := [1, 2] } := by
+  simp [WFnK, fresh, DEFAULT_SYNCPATTERN, DEFAULT_DATATYPEVERSION, TS_RTC]
+example : WFsK { fresh with channelID := 7, packetflag := 0xF7, has_secondary_header := true, ts_source := TS_IEEE1558,
+                            ptptime := ⟨1700000000, 999999999⟩, data_checksum_size := 1, payload := [9, 8, 7] } := by
+  simp [WFsK, fresh, DEFAULT_SYNCPATTERN, DEFAULT_DATATYPEVERSION]
+example : (bytesK { fresh with data_checksum_size := 2, payload := [1, 2] } []).length = 26 ∧
+    leNat (slice (bytesK { fresh with data_checksum_size := 2, payload := [1, 2] } []) 4 8) = 28 := by decide
+/-- and a `k` that is a multiple of four keeps the emitted length a multiple of four (24 + 4 payload bytes, 32 declared) -/
+example : (bytesK { fresh with data_checksum_size := 4, payload := [1, 2, 3, 4] } []).length = 28 ∧
+    leNat (slice (bytesK { fresh with data_checksum_size := 4, payload := [1, 2, 3, 4] } []) 4 8) = 32 := by decide
+
+/-- `ch11_bytesK_zero`: its hypothesis holds for every object the constructor makes -/
+example : ({ fresh with payload := [1, 2, 3] } : State).data_checksum_size = 0 := rfl
 
 end Acra.Props.C03
